@@ -6,7 +6,7 @@ EXTENDS MC_Backends, Json, SequencesExt
 (* Generator: random mutation histories; after every step the spec's prediction of the whole      *)
 (* state and, for every query, the set of admissible answers.                                     *)
 
-VARIABLE hist
+VARIABLES hist, done
 
 ObjSeq == LET ids == SetToSortSeq(Live, <)
           IN [i \in 1..Len(ids) |->
@@ -24,9 +24,12 @@ Probes == [i \in 1..Len(QuerySeq) |->
 Snapshot == [step |-> last, list |-> list, objs |-> ObjSeq, policy |-> policy, metric |-> metric,
              probes |-> Probes, eligible |-> Eligible, coarse |-> Coarse(Eligible), fine |-> Fine]
 
-GenInit == Init /\ hist = <<>>
-GenNext == Mutate /\ hist' = Append(hist, Snapshot')
-GenSpec == GenInit /\ [][GenNext]_<<vars, hist>>
+GenInit == Init /\ hist = <<>> /\ done = FALSE
+\* (simulation evaluates invariants on every candidate successor: the history is printed from the single
+\*  successor of a complete history, so once per behaviour)
+GenNext == \/ Mutate /\ hist' = Append(hist, Snapshot') /\ done' = FALSE
+           \/ steps = MaxSteps /\ ~done /\ done' = TRUE /\ UNCHANGED <<vars, hist>>
+GenSpec == GenInit /\ [][GenNext]_<<vars, hist, done>>
 
-EmitHist == (steps = MaxSteps) => PrintT(<<"REPLAY", ToJson(hist)>>)
+EmitHist == done => PrintT(<<"REPLAY", ToJson(hist)>>)
 =============================================================================
